@@ -3,7 +3,7 @@ query that the oracles of C09 / C10 / C14 use as ground truth."""
 import collections
 
 # ----------------------------------------------------------------------------- catalogs
-PRED_CATALOGS = ['list', 'legacy_dict', 'project', 'to_predict', 'dict_integrations', 'default_mindsdb']
+PRED_CATALOGS = ['list', 'legacy_dict', 'project', 'to_predict', 'dict_integrations', 'default_mindsdb', 'to_predict_str', 'to_predict_other', 'meta_extras']
 
 
 def catalog(kind):
@@ -18,6 +18,14 @@ def catalog(kind):
                     predictor_metadata=[dict(name='pred', integration_name='proj'), dict(name='pred2', integration_name='proj')]), 'proj', 'proj'
     if kind == 'to_predict':
         return dict(integrations=['int1', 'int2'], predictor_metadata=meta(to_predict=['p1'])), 'mindsdb', 'mindsdb'
+    if kind == 'to_predict_str':
+        # the target named by a plain string (more than one character), not a list
+        return dict(integrations=['int1', 'int2'], predictor_metadata=meta(to_predict='p1x')), 'mindsdb', 'mindsdb'
+    if kind == 'to_predict_other':
+        return dict(integrations=['int1', 'int2'], predictor_metadata=meta(to_predict=['zz'])), 'mindsdb', 'mindsdb'
+    if kind == 'meta_extras':
+        # optional metadata keys present with None / empty values
+        return dict(integrations=['int1', 'int2'], predictor_metadata=meta(to_predict=None, timeseries=False, window=None, group_by_columns=None, order_by_column=None)), 'mindsdb', 'mindsdb'
     if kind == 'dict_integrations':
         return dict(integrations=[{'name': 'int1', 'type': 'data'}, {'name': 'int2', 'type': 'data'}], predictor_metadata=meta(), default_namespace='mindsdb'), 'mindsdb', 'mindsdb'
     if kind == 'default_mindsdb':
@@ -29,7 +37,9 @@ SHAPES = ['t_m', 'm_t', 't_t_m', 't_m_t', 'sub_m', 't_m_m', 'implicit', 'on_map'
           # a second table whose ON clause carries more than the key equality (allowed pushdown: top-level conjuncts of an inner / left join's ON)
           't_t_m_on_and', 't_t_m_on_or', 't_t_m_on_not', 't_t_m_on_constfirst', 't_t_m_left_on_and', 't_t_m_right_on_and', 't_t_m_on_paren_or',
           # a table joined after the model: no ON, non-equality ON, ON against a model column
-          't_m_t_noon', 't_m_t_nonequi', 't_m_t_on_model', 't_m_t_left']
+          't_m_t_noon', 't_m_t_nonequi', 't_m_t_on_model', 't_m_t_left',
+          # a sub-select joined after / before the model
+          't_m_sub', 't_m_sub_noon', 'sub_m_t']
 ON_EXTRA = {
     # shape -> (join keyword, ON text with {t}, conjuncts of ON that may be pushed into the fetch of t2)
     't_t_m_on_and': ('JOIN', '{t}.id = t2.id AND t2.b = 3', {('eq', 'b', 3)}),
@@ -72,7 +82,9 @@ WHERES = [
 ALIASES = [('none', None, None), ('as', 'ta', 'ma'), ('upper', 'TA', 'MA')]
 USINGS = [('none', '', None, None), ('one', 'USING x = 1', {'x': 1}, None), ('mixed_case', "USING X = 1, Yy = 'a'", {'x': 1, 'yy': 'a'}, None),
           ('partition', 'USING partition_size = 2', {}, 2), ('partition_and', 'USING partition_size = 2, x = 1', {'x': 1}, 2),
-          ('alias_prefixed', 'USING {m}.x = 1', {'x': 1}, None)]
+          ('alias_prefixed', 'USING {m}.x = 1', {'x': 1}, None),
+          ('alias_prefixed_dotted', "USING {m}.prompt.template = 't', {m}.x = 1", {'prompt.template': 't', 'x': 1}, None),
+          ('values_kept', "USING s = 'MiXed Case', n = NULL, f = 1.5", {'s': 'MiXed Case', 'n': None, 'f': 1.5}, None)]
 TARGETS = [('star', '*'), ('cols', '{t}.a, {m}.p')]
 LIMITS = [('none', ''), ('l1', 'LIMIT 1'), ('order_limit', 'ORDER BY {t}.a LIMIT 2')]
 
@@ -102,7 +114,7 @@ def build(a):
     m = ma or 'pred'
     tref = 'int1.t1' + (f' AS {ta}' if ta else '')
     mref = mname + (f' AS {ma}' if ma else '')
-    if ul == 'alias_prefixed' and not ma:
+    if ul in ('alias_prefixed', 'alias_prefixed_dotted') and not ma:
         return None
     if any(c[0] == 't2' for c in conj) and shape not in ('t_t_m', 't_m_t') and shape not in ON_EXTRA and not shape.startswith('t_m_t'):
         return None
@@ -124,6 +136,17 @@ def build(a):
                 't_m_t_left': f'LEFT JOIN int2.t2 ON {t}.id = t2.id'}[shape]
         frm = f'{tref} JOIN {mref} {tail}'
         tables.append(dict(name='t2', integration='int2', ref='t2'))
+    elif shape in ('t_m_sub', 't_m_sub_noon', 'sub_m_t'):
+        if ta or ma:
+            return None
+        if shape == 't_m_sub':
+            frm = f'{tref} JOIN {mref} JOIN (SELECT * FROM int2.t2 WHERE b > 0) AS s ON t1.id = s.id'
+        elif shape == 't_m_sub_noon':
+            frm = f'{tref} JOIN {mref} JOIN (SELECT * FROM int2.t2) AS s'
+        else:
+            frm = f'(SELECT * FROM int2.t2 WHERE b > 0) AS s JOIN {mref} JOIN {tref} ON t1.id = s.id'
+            models[0]['feed'] = ['t2']
+        tables.append(dict(name='t2', integration='int2', ref='s', via_subselect=True))
     elif shape in ON_EXTRA:
         jk, on, allowed_on = ON_EXTRA[shape]
         frm = f'{tref} {jk} int2.t2 ON {on.replace("{t}", t)} JOIN {mref}'
